@@ -1,2 +1,134 @@
+(* C15 — IOQueue and IOStack conserve bytes and ordering.
+   Only theorem statements here; proofs are in ProofsBlock.v / Proofs.v.
+
+   Vocabulary (Model.v, Spec.v):
+     init bs nq ns        nq IOQueues and ns IOStacks, all empty, sharing one MemoryBlockPool(bs)
+     op                   Write / BigEndianOutputStream<< / Read(memory) / Read(string) /
+                          Peek / Pop / AsIOVec / AppendMove / Clear / Size / Empty on queue i,
+                          Write / << / Read x2 / Pop / AsIOVec / MoveToIOQueue / ~IOStack / Size /
+                          Empty on stack j, MemoryBlockPool::Purge
+     run st ops           the concrete model (blocks with m_first/m_last offsets and a byte array,
+                          deques of blocks, the pool's free list and counter); its result is
+                          Ok (state, outputs) or one of the hazards Oob / OutOfFuel / Undef
+     arun a ops           the specification written from the property text: every buffer is a
+                          list of bytes; queue writes append, stack writes prepend, reads / pops
+                          take from the front, moves concatenate, AsIOVec shows everything
+     op_ok nq ns o        o names buffers that exist; AppendMove is not given the queue itself
+     abs st               the byte list of every buffer = concatenation of [m_first, m_last) of
+                          its blocks, front block first (written out in c15_abs below)            *)
 From OlaBase Require Import Bytes.
-From C15 Require Import Model Spec Proofs.
+From C15 Require Import Model Spec ProofsBlock Proofs.
+Local Open Scope nat_scope.
+
+(* what "the bytes a buffer holds" means concretely *)
+Theorem c15_abs : forall st,
+  abs st =
+  mkA (map (flat_map (fun b => firstn (b_last b - b_first b) (skipn (b_first b) (b_data b)))) (s_q st))
+      (map (flat_map (fun b => firstn (b_last b - b_first b) (skipn (b_first b) (b_data b)))) (s_s st)).
+Proof. exact (fun st => eq_refl). Qed.
+Print Assumptions c15_abs.
+
+(* Conservation and ordering.  For every pool block size >= 1, any number of queues and stacks
+   over that pool and EVERY history of operations: no hazard occurs (no memcpy outside a block,
+   no front()/back() of an empty deque, every Write loop terminates), and the history is matched
+   step by step by the list specification: the final contents agree and every output of every
+   operation (bytes returned by Read / Read(string) / Peek, Size, Empty, the concatenated iovec)
+   is the one the specification gives.  Hence bytes come out exactly as they went in, in write
+   order for a queue and newest write first for a stack, and a byte that was read or popped is
+   gone (read returns firstn n, leaves skipn n). *)
+Theorem c15_refines : forall bs nq ns ops,
+  1 <= bs -> Forall (op_ok nq ns) ops ->
+  exists st outs, run (init bs nq ns) ops = Ok (st, outs) /\
+                  arun (ainit nq ns) ops = (abs st, map out_abs outs).
+Proof. exact refines. Qed.
+Print Assumptions c15_refines.
+
+(* The same, one operation at a time from any state that satisfies the invariant (which every
+   reachable state does, c15_reach_inv): abs commutes with every single operation. *)
+Theorem c15_step : forall bs nq ns st o,
+  1 <= bs -> inv bs nq ns st -> op_ok nq ns o ->
+  exists st' x, step st o = Ok (st', x) /\ inv bs nq ns st' /\
+                astep (abs st) o = (abs st', out_abs x).
+Proof. exact (fun bs nq ns st o Hbs => step_sim bs nq ns Hbs st o). Qed.
+Print Assumptions c15_step.
+
+Theorem c15_reach_inv : forall bs nq ns ops st outs,
+  1 <= bs -> Forall (op_ok nq ns) ops -> run (init bs nq ns) ops = Ok (st, outs) ->
+  inv bs nq ns st /\ arun (ainit nq ns) ops = (abs st, map out_abs outs).
+Proof. exact reach_inv. Qed.
+Print Assumptions c15_reach_inv.
+
+(* Size.  After every history, Size() of every buffer (the sum of m_last - m_first over its
+   blocks) is the number of bytes the specification says it holds; by c15_ledger that number is
+   bytes written minus bytes consumed. *)
+Theorem c15_size : forall bs nq ns ops st outs,
+  1 <= bs -> Forall (op_ok nq ns) ops -> run (init bs nq ns) ops = Ok (st, outs) ->
+  (forall i, i < nq ->
+     buf_size (nth i (s_q st) []) = length (geta (a_q (fst (arun (ainit nq ns) ops))) i)) /\
+  (forall j, j < ns ->
+     buf_size (nth j (s_s st) []) = length (geta (a_s (fst (arun (ainit nq ns) ops))) j)).
+Proof. exact size_thm. Qed.
+Print Assumptions c15_size.
+
+(* Written minus consumed, at the level of the specification: for every buffer k the length of
+   its content after a history equals the bytes put into it (writes, blocks moved in) minus the
+   bytes taken out of it (bytes returned by reads, bytes popped, cleared, blocks moved out),
+   both counted by [ledger] along the history. *)
+Theorem c15_ledger : forall nq ns ops k,
+  Forall (op_ok nq ns) ops -> kid_ok nq ns k ->
+  let '(w, c) := ledger (ainit nq ns) ops k in
+  length (content (fst (arun (ainit nq ns) ops)) k) + c = w.
+Proof. exact ledger_thm. Qed.
+Print Assumptions c15_ledger.
+
+(* Pool.  After every history: allocated = free + held by buffers; no buffer holds an empty
+   block (a block that was emptied by Read / Read(string) / Pop has left its buffer in the same
+   operation, and by the first clause it is on the free list and not lost); held blocks are in
+   bounds; every block on the free list is reset, so a re-used block never shows old bytes. *)
+Theorem c15_pool : forall bs nq ns ops st outs,
+  1 <= bs -> Forall (op_ok nq ns) ops -> run (init bs nq ns) ops = Ok (st, outs) ->
+  blocks_allocated st = free_blocks st + in_use st /\
+  (forall bl b, In bl (s_q st ++ s_s st) -> In b bl ->
+     b_first b < b_last b /\ b_last b <= bs /\ b_cap b = bs /\ length (b_data b) = bs) /\
+  (forall b, In b (p_free (s_pool st)) -> b_first b = 0 /\ b_last b = 0 /\ b_cap b = bs).
+Proof. exact pool_thm. Qed.
+Print Assumptions c15_pool.
+
+(* Scatter-gather export.  After every history, AsIOVec of every buffer succeeds with one vector
+   per block, none of them empty, and their concatenation is exactly the buffer's content. *)
+Theorem c15_iovec : forall bs nq ns ops st outs,
+  1 <= bs -> Forall (op_ok nq ns) ops -> run (init bs nq ns) ops = Ok (st, outs) ->
+  (forall i, i < nq -> exists v,
+     buf_iovec (nth i (s_q st) []) = Ok v /\ length v = length (nth i (s_q st) []) /\
+     Forall (fun s => s <> []) v /\
+     concat v = geta (a_q (fst (arun (ainit nq ns) ops))) i) /\
+  (forall j, j < ns -> exists v,
+     buf_iovec (nth j (s_s st) []) = Ok v /\ length v = length (nth j (s_s st) []) /\
+     Forall (fun s => s <> []) v /\
+     concat v = geta (a_s (fst (arun (ainit nq ns) ops))) j).
+Proof. exact iovec_thm. Qed.
+Print Assumptions c15_iovec.
+
+(* ------------------------------------------------------------------ non-vacuity *)
+(* a history that satisfies every hypothesis above and exercises block boundaries, a stack to
+   queue move, a string read, a clear with pool re-use and a purge (block size 2) *)
+Definition ex_ops : list op :=
+  [QWrite 0 [1;2;3]%N; SWrite 0 [4;5;6]%N; SWrite 0 [7]%N; SMove 0 0; QReadStr 0 2; QPeek 0 9;
+   QWrite 1 [8;9]%N; QClear 1; QWrite 1 [10]%N; QAppendMove 0 1; QIOVec 0; QSize 0; PoolPurge;
+   QRead 0 9; QEmpty 0].
+
+Example ex_ok : Forall (op_ok 2 1) ex_ops.
+Proof. unfold ex_ops. repeat constructor. all: discriminate. Qed.
+
+Example ex_run :
+  exists st, run (init 2 2 1) ex_ops =
+    Ok (st, [ONone; ONone; ONone; ONone; OBytes [1;2]%N; OBytes [3;7;4;5;6]%N; ONone; ONone; ONone;
+             ONone; OVec [[3]; [7;4]; [5;6]; [10]]%N; ONum 6; ONone;
+             OBytes [3;7;4;5;6;10]%N; OBool true]).
+Proof. eexists. vm_compute. reflexivity. Qed.
+
+Example ex_kid : kid_ok 2 1 (KQ 0) /\ kid_ok 2 1 (KS 0).
+Proof. cbv. lia. Qed.
+
+Example ex_inv : inv 2 2 1 (init 2 2 1).
+Proof. exact (inv_init 2 2 1). Qed.
